@@ -21,10 +21,10 @@ ASAN_ENV = dict(os.environ, ASAN_OPTIONS="detect_leaks=0:allocator_may_return_nu
                 UBSAN_OPTIONS="print_stacktrace=0:halt_on_error=1")
 EXPLORED_ONLY = [
     "psX509ParseCert / parse_single_cert outer length bookkeeping (x509.c 680-1440)", "getExplicitExtensions and every extension body parser except subjectAltName GeneralNames (x509.c 3200-4880)",
-    "psX509ParseCertData / psPemCertBufToList callers", "psX509ParseCRL (crl.c 875-1200)", "psOcspParseResponse / ocspParseBasicResponse (x509.c 6231-6990)",
+    "psX509ParseCertData / psPemCertBufToList callers", "psOcspParseResponse / ocspParseBasicResponse (x509.c 6231-6990)",
     "psPkcs8ParsePrivBin, PBES2 / PKCS#5 decryption (pkcs.c)", "psPkcs12ParseMem (pkcs.c)", "psPkcs3ParseDhParamBin (dh_params.c)",
     "psRsaParsePkcs1PrivKey, psRsaParseAsnPubKey, psEccParsePrivKey, getEcPubKey, psEd25519 parsers (pubkey/*_parse_mem.c)",
-    "psParseUnknownPubKeyMem / psParseUnknownPrivKeyMem", "matrixSslLoadKeysMem / matrixSslLoadRsaKeysMem / matrixSslLoadEcKeysMem identity and trust-anchor loading (matrixsslKeys.c): scenario runs, no model",
+    "psParseUnknownPubKeyMem / psParseUnknownPrivKeyMem / psRsaParsePubKeyMem (DER and PEM forms)", "psX509ParseCRL outside its revoked-entry loop (the loop IS modelled: crl_revoked), CRL cache management (psCRL_Insert/Update/Remove/RemoveAll/DeleteAll)", "matrixSslLoadKeysMem / matrixSslLoadRsaKeysMem / matrixSslLoadEcKeysMem identity and trust-anchor loading (matrixsslKeys.c): scenario runs, no model",
     "PBKDF1 key derivation and 3DES/AES decryption of an encrypted PEM body (the header / IV / framing part IS modelled: pem_decode_pw)", "psPkcs1ParsePrivFile / psPkcs1DecodePrivFile / psPemFileToDer (file entry points)",
     "psParseBuf readers (core/src/psbuf.c) - not modelled, reached only through the parsers above",
     "time/validity parsers (getTimeValidity, psBrokenDownTimeImport)", "OID database lookup (checkAsnOidDatabase): *oi is not compared", "allocation failure paths (C19)",
@@ -563,6 +563,146 @@ def gen_pempw(ck, r, budget, samples):
     return cases
 
 
+# ------------------------------------------------------------------------------------------- CRLs
+TIMES_OK = ["190601000000Z", "20190601000000Z", "000229120000Z", "491231235959Z", "500101000000Z", "99991231235959Z", "160229235960Z",
+            "190601000000", "19060100000000", "20190601000000+0100", "1906010000005"]
+TIMES_BAD = ["", "1", "19060100000", "190001000000Z", "191301000000Z", "190632000000Z", "190230000000Z", "190229000000Z", "190601240000Z",
+             "190601006000Z", "190601000061Z", "19060100000aZ", "18991231235959Z", "30000101000000Z", "2019060100000", "1" * 256, "1906010000\x0000Z"]
+
+def crlrev_case(entries, declared=None, exts=None, junk=b"", inexact=False):
+    c, off = der.crl_parts(entries, declared=declared, exts=exts, junk=junk)
+    dl = len(entries) if declared is None else declared
+    tailok = 1 if (not junk and dl == len(entries) and not inexact) else 0
+    return "crlrev %d %s %s %d" % (dl & 0xFFFFFFFF, hx(c[off:]), c.hex(), tailok)
+
+def gen_crlrev(ck, r, budget):
+    """the revoked-certificates loop (modelled): serial / date / entry-length shapes, entry SEQUENCE lengths on both sides of
+    their contents (the cursor underflow), declared list lengths +-k, 0..50 entries, entry extensions, truncations"""
+    cases = []
+    def add(c, kind):
+        cases.append(c); ck.count("crlrev:" + kind)
+    E = der.crl_entry
+    exts = [der.CRL_EXTS["akid"](), der.CRL_EXTS["crlnumber"]()]
+    good = [E(), E(b"\x05"), E(b"\x00\x81", "20190601000000Z"), E(bytes(range(1, 21)), ext=der.ENTRY_EXTS["reason"]()),
+            E(b"\x00" + bytes(range(200, 220)), ext=der.ENTRY_EXTS["invalidity"]() + der.ENTRY_EXTS["issuer"]()), E(b"\x7f", serial_tag=0x82)]
+    for n in (0, 1, 2, 3, 5, 50):
+        ents = b"".join(good[i % len(good)] for i in range(n))
+        add(crlrev_case(ents), "count"); add(crlrev_case(ents, exts=exts), "count+ext")
+        for d in (-2, -1, 1, 2, 19):
+            add(crlrev_case(ents, declared=max(0, len(ents) + d), exts=exts if d > 0 else None), "declared%+d" % d)
+    # entry SEQUENCE length on both sides of what the entry holds: 0 .. real+3, in every length form
+    for e0 in (E(), E(bytes(range(1, 21)), ext=der.ENTRY_EXTS["reason"]()), E(b"\x05", "20190601000000Z")):
+        body = e0[2:] if e0[1] < 0x80 else e0[2 + (e0[1] & 0x7F):]
+        for ln in list(range(0, len(body) + 4)):
+            for form in (None, 1, 2, 4):
+                e = der.tlv(0x30, body, form, length=ln)
+                add(crlrev_case(e + E(b"\x09"), inexact=True), "entry-len"); add(crlrev_case(e, inexact=True), "entry-len-last")
+                add(crlrev_case(E(b"\x07") + e + E(b"\x09"), exts=exts, inexact=True), "entry-len-middle")
+    # serial shapes
+    for sl in (0, 1, 2, 20, 21, 127, 128, 129, 255, 256, 257, 1000):
+        for tag in (0x02, 0x82, 0x04, 0x30):
+            sv = bytes((i * 5 + 1) & 0xFF for i in range(sl))
+            add(crlrev_case(E(sv, serial_tag=tag) + E()), "serial")
+        add(crlrev_case(der.tlv(0x30, der.tlv(0x02, sv, length=sl + 40) + der.anytime("190601000000Z"))), "serial-len-past-entry")
+    # dates
+    for t in TIMES_OK + TIMES_BAD:
+        tb = t.encode("latin-1") if isinstance(t, str) else t
+        for tag in (0x17, 0x18):
+            add(crlrev_case(E(date=der.tlv(tag, tb)) + E()), "date")
+    for tag in (0x16, 0x02, 0x00, 0x30):
+        add(crlrev_case(E(date=der.tlv(0x17, b"190601000000Z")).replace(b"\x17\x0d", bytes([tag, 0x0d]), 1)), "date-tag")
+    # every truncation point of a three-entry list (the CRL ends there) and of the list inside an otherwise complete CRL
+    three = good[0] + good[3] + good[2]
+    for cut in range(len(three) + 1):
+        add(crlrev_case(three[:cut], inexact=True), "truncated-list")
+        c, off = der.crl_parts(three)
+        cc = c[:off + cut]
+        add("crlrev %d %s %s 0" % (len(three), hx(cc[off:]), cc.hex()), "crl-ends-inside-list")
+    while len(cases) < budget:
+        n = r.choice([1, 2, 3, 6])
+        ents = []
+        for _ in range(n):
+            sv = bytes(r.randrange(256) for _ in range(r.choice([0, 1, 1, 2, 8, 20, 21])))
+            t = r.choice(TIMES_OK * 3 + TIMES_BAD)
+            ex = r.choice([None, None, der.ENTRY_EXTS["reason"](), der.ENTRY_EXTS["invalidity"](), b"\x30\x00", b"\x05\x00"])
+            e = E(sv, der.tlv(r.choice([0x17, 0x17, 0x18]), t.encode("latin-1")), ext=ex, serial_tag=r.choice([2, 2, 2, 0x82, 4]))
+            k = r.randrange(8)
+            if k == 0: e = bytes([e[0], max(0, e[1] + r.choice([-5, -2, -1, 1, 2, 30])) & 0x7F]) + e[2:] if e[1] < 0x80 else e
+            elif k == 1: km, e = der.mutate(r, e)
+            ents.append(e)
+        eb = b"".join(ents)
+        m = r.randrange(6)
+        if m == 0: add(crlrev_case(eb, declared=max(0, len(eb) + r.choice([-3, -1, 1, 4])), inexact=True), "rand-declared")
+        elif m == 1: add(crlrev_case(eb[:r.randrange(len(eb) + 1)], inexact=True), "rand-trunc")
+        else: add(crlrev_case(eb, exts=r.choice([None, exts]), inexact=True), "rand")
+    return cases
+
+def gen_crl_whole(ck, r, budget):
+    """whole CRLs (implementation only; parsed three times, walker + heap-baseline check; crlcache = cache management):
+    every optional field, date orders, signed samples, consistent resize of every leaf, NON-consistent length edits of
+    every constructed header"""
+    cases, meta = [], []
+    def add(b, kind, op="crl"):
+        cases.append("%s %s" % (op, hx(b))); meta.append((op, kind, "generated-crl")); ck.count("crl:" + kind)
+    E = der.crl_entry
+    ents = E() + E(b"\x05", ext=der.ENTRY_EXTS["reason"]()) + E(bytes(range(1, 21)), "20190601000000Z", ext=der.ENTRY_EXTS["invalidity"]() + der.ENTRY_EXTS["issuer"]())
+    allx = [der.CRL_EXTS[k]() for k in ("akid", "crlnumber", "idp", "ian", "unknown")]
+    variants = {}
+    for ver in (1, None, 0, 2):
+        for nu in ("300101000000Z", None, "190101000000Z", "200101000000Z", "20300101000000Z", "99991231235959Z"):
+            for tu in ("200101000000Z", "20200101000000Z"):
+                for ne, eb in ((0, b""), (1, E()), (3, ents), (40, ents * 13 + E())):
+                    for xs in (None, allx, [der.CRL_EXTS["delta"]()], [der.CRL_EXTS["akid"](), der.CRL_EXTS["akid"]()]):
+                        if (ver, nu, tu, ne) not in ((1, "300101000000Z", "200101000000Z", 3),) and r.random() < 0.8 and xs is not None and ne == 40: continue
+                        c, _ = der.crl_parts(eb, version=ver, next_update=nu, this_update=tu, exts=xs, revoked_present=(ne > 0 or r.random() < 0.5))
+                        order = "none" if nu is None else "before" if nu[-13:] < tu[-13:] and len(nu) == len(tu) else "equal" if nu == tu else "after"
+                        variants.setdefault("v=%s next=%s" % (ver, order), c)
+                        add(c, "fields:next-" + order); add(c, "fields:next-" + order, "crlcache")
+    # CRLs signed by the test CAs (tools/c03pki.py, read only)
+    signed = []
+    try:
+        import c03pki
+        for ca in ("RSA/1024_RSA_CA", "RSA/2048_RSA_CA"):
+            cad = der.pem_blocks(open(os.path.join(vlib.REPO, "testkeys", ca + ".pem"), "rb").read())[0][1]
+            tbs = der.tree(cad)[0].kids[0].kids
+            subj = tbs[5].enc()
+            hl = 2 if subj[1] < 0x80 else 2 + (subj[1] & 0x7F)
+            key = c03pki.RsaKey(open(os.path.join(vlib.REPO, "testkeys", ca + "_KEY.pem")).read())
+            for serials, nu, gt in (([b"\x10\x01", b"\x05"], (2030, 1, 1), False), ([], None, False), ([bytes(range(1, 21))], (2019, 1, 1), True)):
+                signed.append(c03pki.make_crl(subj[hl:], key, serials, next_update=nu, gen_time=gt, crl_ext=der.CRL_EXTS["crlnumber"]()))
+    except Exception as ex:
+        ck.notes.append("c03pki signed CRL samples not available: %r" % (ex,))
+    for c in signed:
+        add(c, "signed-sample"); add(c, "signed-sample", "crlcache")
+    bases = [der.crl_parts(ents, exts=allx)[0], der.crl_parts(E(), version=None, next_update=None)[0]] + signed[:2]
+    for b in bases:
+        ts = der.tree(b)
+        if not ts: continue
+        # length-consistent resize of every leaf
+        for li, leaf in enumerate(der.leaves(ts)):
+            for ni, n in enumerate([0, 1, 2, 3, 11, 12, 13, 14, 15, 16, 19, 20, 21, 31, 32, 33, 127, 128, 129, 255, 256, 257, 1024]):
+                if ck.tier != "thorough" and (li + ni) % 2: continue
+                add(der.resized(ts, leaf, n), "resize-leaf:%02x" % leaf.tag)
+        # NON-consistent edits of every constructed header: the length octets alone change, contents stay
+        for (st, h, n, tag, d) in der.offsets(b):
+            if not (tag & 0x20): continue
+            for ln in sorted(set([0, 1, 2, 3, 4, 5, max(0, n - 20), max(0, n - 2), max(0, n - 1), n + 1, n + 2, n + 20, 0x7F, 0x80, 0xFF, 0x100, 0xFFFF, 0x10000, 0xFFFFFFFF])):
+                add(b[:st] + bytes([tag]) + der.enc_len(ln) + b[st + h:], "header-length")
+            add(b[:st] + bytes([tag, 0x80]) + b[st + h:], "header-indefinite")
+            add(b[:st + h], "cut-after-header"); add(b[:st + 1], "cut-after-tag")
+        for cut in range(0, len(b), max(1, len(b) // 150)):
+            add(b[:cut], "prefix")
+    offs = {}
+    while len(cases) < budget:
+        b = r.choice(bases)
+        if b not in offs: offs[b] = (der.offsets(b), der.tree(b))
+        rz = der.mutate_resize(r, b, offs[b][1]) if r.random() < 0.3 else None
+        k, m = rz if rz else der.mutate(r, b, offs[b][0])
+        if r.random() < 0.2: k2, m = der.mutate(r, m)
+        add(m, "mutated:" + k.split(":")[0], r.choice(["crl", "crl", "crl", "crlcache"]))
+    return cases, meta
+
+
 # ------------------------------------------------------------------------------------------- key-loading scenarios (implementation only)
 def _pem_der(path):
     raw = open(os.path.join(vlib.REPO, "testkeys", path), "rb").read()
@@ -682,7 +822,8 @@ def load_samples(ck):
                     elif lab == "PRIVATE KEY":
                         seeds.append((nm, "pkcs8", d, None)); seeds.append((nm, "privkey", d, None))
                     elif lab == "PUBLIC KEY":
-                        seeds.append((nm, "pubkey", d, None))
+                        seeds.append((nm, "pubkey", d, None)); seeds.append((nm, "rsapub", d, None))
+                        seeds.append((rel + "#pem", "pubkey", raw, None)); seeds.append((rel + "#pem", "rsapub", raw, None))
                     elif lab == "DH PARAMETERS":
                         seeds.append((nm, "dhparams", d, None))
             elif f.endswith(".p8"):
@@ -701,6 +842,10 @@ def load_samples(ck):
                         seeds.append(("samples/" + f, t[0], bytes.fromhex(t[1]), " ".join(t[2:]) or None))
     seeds.append(("generated-crl", "crl", der.crl(), None))
     seeds.append(("generated-crl-empty", "crl", der.crl(revoked=()), None))
+    rsapk = der.seq(der.integer(der._MOD), der.integer(65537))
+    for lab, body in (("PUBLIC KEY", der.bitstr(rsapk)), ("PUBLIC KEY", rsapk), ("RSA PUBLIC KEY", rsapk), ("PUBLIC KEY", der.SPKI_RSA)):
+        seeds.append(("generated-pubkey-pem", "pubkey", der.pem(lab, body), None)); seeds.append(("generated-pubkey-pem", "rsapub", der.pem(lab, body), None))
+    seeds.append(("generated-cert-ed25519-signed-rsa-key", "cert", der.cert([der.san_ext([der.general_name(2, b"a.b")])], sigalg=der.seq(der.oid("1.3.101.112")), sig=bytes(64)), None))
     seeds.append(("generated-cert-san", "cert", der.cert([der.san_ext([der.general_name(2, b"a.example.com"), der.general_name(7, bytes([10, 0, 0, 1]))]),
                                                           der.extension("bc", der.seq(der.boolean(True), der.integer(1)), True)]), None))
     return seeds
@@ -793,6 +938,12 @@ def gen_whole(ck, r, seeds, budget):
             for ni, n in enumerate(klens):
                 if ck.tier != "thorough" and (li + ni) % (4 if op == "p12" else 2): continue
                 add(op, der.resized(ts, leaf, n), extra, "resize-leaf:%02x" % leaf.tag, name)
+    # certificates whose encoding straddles 2^16 octets, kept with CERT_STORE_UNPARSED_BUFFER (16-bit binLen / DER offsets)
+    for total in (65529, 65530, 65531, 65532, 65533, 65534, 65535, 65536):
+        for pad in range(total - 1100, total - 900):
+            c = der.cert([der.extension("1.2.3.4", der.octet(bytes(pad)))])
+            if len(c) - 4 == total:
+                add("cert", c, "1", "size-2^16", "generated-cert"); add("cert", c, "3", "size-2^16", "generated-cert"); break
     derseeds = [s for s in seeds if s[1] not in ("certdata", "keys")]
     pemseeds = [s for s in seeds if s[1] in ("certdata", "keys")]
     offcache = {}
@@ -835,7 +986,7 @@ def corpus_cases():
                         out.append(l)
     return out
 
-MODEL_OPS = ("len32", "len16", "seq32", "seq16", "set32", "set16", "int", "enum", "oid", "oidcopy", "algid", "taglen", "gn", "dn", "b64", "pemchk", "pemdec", "pemlist", "pempw")
+MODEL_OPS = ("len32", "len16", "seq32", "seq16", "set32", "set16", "int", "enum", "oid", "oidcopy", "algid", "taglen", "gn", "crlrev", "dn", "b64", "pemchk", "pemdec", "pemlist", "pempw")
 
 def is_model_case(c):
     return c.split(" ", 1)[0] in MODEL_OPS
@@ -863,7 +1014,7 @@ def gn_postprocess(cases, model):
     """model line for gn cases: ok only when the names consumed exactly the declared SEQUENCE and what follows is well formed"""
     out = []
     for c, m in zip(cases, model):
-        if c.startswith("gn ") and m.startswith("ok"):
+        if (c.startswith("gn ") or c.startswith("crlrev ")) and m.startswith("ok"):
             t = c.split()
             mm = re.match(r"ok p=(\d+) (.*)$", m)
             if mm:
@@ -912,6 +1063,7 @@ def run(ck):
     mcases += gen_pem(ck, ck.rng("pem"), ck.budget(900, 8000), sample_cert)
     enc_samples = [(n, b) for n, op, b, e in seeds if op in ("keys", "pkfile") and b"ENCRYPTED" in b]
     mcases += gen_pempw(ck, ck.rng("pempw"), ck.budget(2600, 12000), enc_samples)
+    mcases += gen_crlrev(ck, ck.rng("crlrev"), ck.budget(2600, 12000))
     seen, uniq = set(), []
     for c in mcases:
         if c not in seen:
@@ -926,6 +1078,7 @@ def run(ck):
                     "Encrypted PEM (psPemDecode with a password argument): IV digit counts 0..40 for both ciphers in place, before BEGIN and as the very last bytes of the buffer after the END line, non-hex characters at each IV position, unknown cipher names, bodies of 0..64 bytes around the block sizes, LF/CRLF/CR, 14 header orders (DEK-Info before/after/without Proc-Type, doubled), two DEK-Info lines, Proc-Type variants, every truncation point, passwords none/empty/right/wrong, header-zone mutations of the encrypted samples. "
                     "Key loading: every certificate x every key (own, foreign, RSA/EC crossed), chains of 1-3 in right/wrong order, unauthenticated chains, CA bundles with truncated / MD4 / bad-signature members, PEM and concatenated DER, three loaders, then matrixSslDeleteKeys; plus ASN.1-aware mutations of one component. "
                     "PKCS#12 / PKCS#8 / small private keys (always in the quick tier): every leaf of the password-protected samples (3DES-encrypted, plaintext-bag and EC PKCS#12; PBES2 PKCS#8) resized length-consistently to 0,1,3,4,7..9,15..17,19..21,24,31..33,63..65,127..129,255..257,288,511..513,540,1024 octets; iteration counts set to 2^31-1 / max+1 / 0 / negative. "
+                    "CRLs: modelled revoked-entry loop (serial shapes and tags, 28 date strings in both time types, entry SEQUENCE length 0..real+3 in four length forms - the cursor underflow -, declared list length +-k, 0..50 entries, entry extensions, every truncation point); whole CRLs parsed three times with the consistency walker and a heap-baseline check on success AND failure, plus cache management: versions absent/1/0/2, nextUpdate absent/before/equal/after thisUpdate/indefinite, UTCTime and GeneralizedTime, 0/1/3/40 entries, CRL extensions AKID/cRLNumber/IDP/IAN/delta/unknown/duplicated, CA-signed samples (tools/c03pki.py), consistent resize of every leaf, NON-consistent edits of every constructed header's length (19 values), indefinite form, cuts after tag/header, prefixes. "
                     "A modelled case is non-trivial when the library accepts it")
     # ---- modelled functions: model vs sanitizer build (authoritative) and vs plain build (run concurrently)
     res = {}
@@ -950,7 +1103,8 @@ def run(ck):
     wcases, meta = gen_whole(ck, ck.rng("whole"), seeds, ck.budget(12000, 120000))
     kcases, kmeta = gen_keyload(ck, ck.rng("keyload"), ck.budget(1500, 12000))
     pcases, pmeta = gen_pkfile(ck, ck.rng("pkfile"), ck.budget(250, 3000), enc_samples)
-    wcases = wcorp + wcases + kcases + pcases; meta = [(c.split(" ", 1)[0], "corpus", "corpus") for c in wcorp] + meta + kmeta + pmeta
+    ccases, cmeta = gen_crl_whole(ck, ck.rng("crl"), ck.budget(6500, 30000))
+    wcases = wcorp + wcases + kcases + pcases + ccases; meta = [(c.split(" ", 1)[0], "corpus", "corpus") for c in wcorp] + meta + kmeta + pmeta + cmeta
     def run_whole():
         t1 = time.time()
         res["whole"] = run_faulting(ck, ha, wcases, env=ASAN_ENV, label="asan/whole")
